@@ -117,6 +117,16 @@ func ruleIDDupName(c *Ctx) []Obligation {
 					if !skips {
 						continue
 					}
+					// the skipping branch is the one where the name is taken by another: a comparison of what was found
+					// with nil, or with the identity at hand, must come out "found" and "another" there
+					if bo, isBO := ifi.Cond.(*ssa.BinOp); isBO && (bo.Op == token.EQL || bo.Op == token.NEQ) {
+						if _, isPtr := bo.X.Type().Underlying().(*types.Pointer); isPtr {
+							onEqual := (bo.Op == token.EQL) == (s == b.Succs[0])
+							if onEqual {
+								continue
+							}
+						}
+					}
 					// an error value is made on the skipping branch
 					made := false
 					seen := map[*ssa.BasicBlock]bool{}
@@ -143,6 +153,42 @@ func ruleIDDupName(c *Ctx) []Obligation {
 					} else {
 						silent = true
 					}
+				}
+			}
+		}
+		// a table of its own must also be filled: the name is entered where the identity is filed
+		if testAt != nil {
+			if _, f, _ := loadedField(table); f != fDict {
+				filled := false
+				c.eachInstrDeep(fn, func(in ssa.Instruction) {
+					mu2, isMU := in.(*ssa.MapUpdate)
+					if !isMU || filled {
+						return
+					}
+					same := false
+					operandClosure(mu2.Map, func(x ssa.Value) {
+						operandClosure(table, func(y ssa.Value) {
+							if _, isMk := x.(*ssa.MakeMap); isMk && x == y {
+								same = true
+							}
+						})
+					})
+					if !same {
+						return
+					}
+					byName := false
+					operandClosure(mu2.Key, func(y ssa.Value) {
+						if _, f2, _ := loadedField(y); f2 == fName {
+							byName = true
+						}
+					})
+					if byName {
+						filled = true
+					}
+				})
+				if !filled {
+					obs = append(obs, bad(R, con, c.InstrPos(mu), "the table of taken names is looked up but never filled: no name is ever found taken, and a second identity of the same name replaces the first as before"))
+					continue
 				}
 			}
 		}
@@ -280,6 +326,14 @@ func ruleSchemaExtParent(c *Ctx) []Obligation {
 				fromNode = true
 			}
 		})
+		// not on the branch where a comma-ok assertion of the node failed (there the value is nil)
+		for _, g := range guardsAt(st.Block()) {
+			if ex, isE := g.Cond.(*ssa.Extract); isE && ex.Index == 1 && !g.Branch {
+				if _, isTA := ex.Tuple.(*ssa.TypeAssert); isTA {
+					fromNode = false
+				}
+			}
+		}
 		if fromNode {
 			obs = append(obs, ok(R, con2, c.InstrPos(st), "set from the node under construction (the filer's second parameter)"))
 		} else {
@@ -1025,6 +1079,35 @@ func ruleErrLocSplit(c *Ctx) []Obligation {
 			}
 		}
 	})
+	// the match must be used for the number of pieces the comparator asks for: a condition on that number next to the
+	// match is evaluated with the constant that is handed in
+	if g != nil {
+		if call, isC := at.(*ssa.Call); isC {
+			hfn := call.Parent()
+			for _, gd := range guardsAt(refsOfIf(call)) {
+				_ = gd
+			}
+			eachInstr(hfn, func(in ssa.Instruction) {
+				bo, isB := in.(*ssa.BinOp)
+				if !isB {
+					return
+				}
+				p, isP := bo.X.(*ssa.Parameter)
+				k, isK := constInt(bo.Y)
+				if !isP || !isK || !isIntType(p.Type()) {
+					return
+				}
+				arg, isA := constInt(resolveArg(p))
+				if !isA {
+					return
+				}
+				holds := map[token.Token]bool{token.GEQ: arg >= k, token.GTR: arg > k, token.EQL: arg == k, token.LEQ: arg <= k, token.LSS: arg < k, token.NEQ: arg != k}[bo.Op]
+				if !holds {
+					g = nil // the branch that uses the match is dead for the count in use
+				}
+			})
+		}
+	}
 	if g == nil {
 		return []Obligation{bad(R, con, c.Pos(less.Pos()), "the text is only split at its first colons: with a source name that contains a colon (C:\\models\\m.yang, http://host/m.yang) the pieces are misaligned and the column is compared as text (33 before 9); a text parsed without a name is positioned `line L:C` and compared as one string (line 10 before line 4)")}
 	}
@@ -1344,6 +1427,35 @@ func ruleFindSchemaID(c *Ctx) []Obligation {
 			if !(is1 && s1 == "..") && !(is2 && s2 == "..") {
 				return
 			}
+			// the comparison must be reached whatever the step's other comparisons said: not only when the step
+			// also equals something else (`step == "." && step == ".."` never holds)
+			var stepV ssa.Value = bo.X
+			if is1 {
+				stepV = bo.Y
+			}
+			for _, g := range guardsAt(bo.Block()) {
+				if gb, isGB := g.Cond.(*ssa.BinOp); isGB && gb.Op == token.EQL && g.Branch && gb != bo {
+					if gb.X == stepV || gb.Y == stepV {
+						return
+					}
+				}
+			}
+			// and its equal branch must lead to the nil return
+			eqLeads := false
+			for _, r := range refsOf(bo) {
+				if ifi, isIf := r.(*ssa.If); isIf {
+					eq := ifi.Block().Succs[0]
+					if bo.Op == token.NEQ {
+						eq = ifi.Block().Succs[1]
+					}
+					if rt := terminalReturn(eq); rt != nil && len(rt.Results) == 1 && isNilConst(resolveSpill(rt.Results[0], rt)) {
+						eqLeads = true
+					}
+				}
+			}
+			if !eqLeads {
+				return
+			}
 			// some return of nil is control dependent on it: reachable from this block, and not every return is
 			for _, b := range fn.Blocks {
 				r, isR := b.Instrs[len(b.Instrs)-1].(*ssa.Return)
@@ -1500,7 +1612,7 @@ func ruleDevTypeKind(c *Ctx) []Obligation {
 						continue
 					}
 				}
-				if nonLeaf != sb && !blockReaches(nonLeaf, sb, avoid) {
+				if nonLeaf != sb && !blockReaches(nonLeaf, sb, avoid) && errorMadeFrom(nonLeaf, avoid) {
 					guarded = true
 				}
 				break
@@ -1741,3 +1853,6 @@ func ruleCacheCoherent(c *Ctx) []Obligation {
 	}
 	return obs
 }
+
+// refsOfIf: the block of the instruction (helper for guard queries on a call's surroundings).
+func refsOfIf(in ssa.Instruction) *ssa.BasicBlock { return in.Block() }
